@@ -1,6 +1,7 @@
 // The executor: runs a TaskPlan (a list of API operations on the task's private data) against the REAL library
 // inside the simulated environment, evaluates the in-run oracles after every step and records a trace.
 #pragma once
+#include <cerrno>
 #include <cstdio>
 #include <cstring>
 #include <memory>
@@ -1264,8 +1265,24 @@ template <class K> struct World {
         }
     }
 
+    // control part of the caller's floating-point environment: rounding mode, exception masks, flush-to-zero / denormals-are-zero
+    // (SSE) and precision / rounding control (x87); the sticky exception flags are the arithmetic's business
+    static unsigned fp_control_state() {
+#if defined(__x86_64__) || defined(__i386__)
+        unsigned csr = 0; unsigned short cw = 0;
+        __asm__ __volatile__("stmxcsr %0" : "=m"(csr));
+        __asm__ __volatile__("fnstcw %0" : "=m"(cw));
+        return ((csr & 0xFFC0u) << 16) | cw;
+#else
+        return 0;
+#endif
+    }
     void run_op(const Op &o0) {
         Op o = o0;
+        unsigned fp0 = fp_control_state();
+        // errno belongs to the calling thread and holds whatever an earlier library or libc call left there: zero in the clean pass,
+        // a stale ERANGE in the dirty passes - a call whose control flow looks at errno without clearing it first depends on history
+        errno = (ctx->garbage == G_ZERO) ? 0 : ERANGE;
 #if defined(XSDK_INDEX_SIZE) && (XSDK_INDEX_SIZE == 64)
         // 64-bit index build + single precision real + caller workspace is a recorded finding (KF4): library allocation instead
         if (K::letter == 's' && o.lwork > 0 && !g_force_user_workspace) o.lwork = 0;
@@ -1287,6 +1304,12 @@ template <class K> struct World {
         else if (o.kind == "destroy") { destroy_slot(slots[o.slot]); r.cls = XC_OK; }
         else if (o.kind == "bfactor" || o.kind == "bsolve" || o.kind == "bfree") op_bridge(o, r);
         else { r.skipped = true; r.skip_reason = "unknown op"; }
+        { unsigned fp1 = fp_control_state(); if (fp1 != fp0) { char b[160]; snprintf(b, sizeof b, "the call returned with a different floating-point control state (MXCSR control bits / x87 control word %08x -> %08x): later arithmetic of the caller's thread is affected", fp0, fp1); viol(r, "fp-environment", b);
+            // restore, so that one leak is reported once
+#if defined(__x86_64__) || defined(__i386__)
+            unsigned csr = 0; __asm__ __volatile__("stmxcsr %0" : "=m"(csr)); csr = (csr & 0x3Fu) | ((fp0 >> 16) & 0xFFC0u); __asm__ __volatile__("ldmxcsr %0" : : "m"(csr)); unsigned short cw = (unsigned short)(fp0 & 0xFFFFu); __asm__ __volatile__("fldcw %0" : : "m"(cw));
+#endif
+        } }
         for (auto &v : ctx->rt_violations) viol(r, "ledger", v);
         ctx->rt_violations.clear();
         rt_event(ctx, "op_result", (uint64_t)r.cls, r.snap.hash());
